@@ -73,6 +73,18 @@ impl Shards {
 }
 
 // ======================================================================
+// Shards - VERIFICATION HOOKS
+
+#[cfg(feature = "verif-hooks")]
+impl Shards {
+    pub(crate) fn verif_digest(&self, digest: &mut crate::verif_hooks::Digest) {
+        digest.usize(self.shard_count);
+        digest.usize(self.shard_len_64);
+        digest.bytes(self.data.as_flattened());
+    }
+}
+
+// ======================================================================
 // Shards - IMPL Index
 
 impl Index<usize> for Shards {
